@@ -158,6 +158,7 @@ def main(argv=None) -> int:
     if not argv:
         print("usage: check <Cnn|all> [quick|thorough] [--repo PATH] [--explain FILE]")
         return 2
+    _reexec_if_newer_syntax(repo_root, list(sys.argv))
     prop = argv[0].upper()
     tier = argv[1] if len(argv) > 1 else os.environ.get("VERIF_TIER", "quick")
     if tier not in ("quick", "thorough"):
@@ -171,6 +172,30 @@ def main(argv=None) -> int:
             rc = max(rc, r)
         return rc
     return run_check(prop, tier, repo_root, explain)
+
+
+def _reexec_if_newer_syntax(root, full_argv):
+    """The package is written for the repository's own interpreter (/venv, Python 3.12); this analyser normally runs under the
+    system python3 (3.11).  If some source file uses syntax this interpreter cannot parse but the repository's can, run the
+    same check under that interpreter instead (text analysis only - mdpax is still never imported)."""
+    import ast
+    from pathlib import Path
+
+    if os.environ.get("MDPAXLINT_REEXEC"):
+        return
+    base = Path(root or os.environ.get("MDPAX_REPO") or "/repo") / "src" / "mdpax"
+    try:
+        for f in sorted(base.rglob("*.py")):
+            ast.parse(f.read_text())
+        return
+    except SyntaxError:
+        pass
+    except OSError:
+        return
+    alt = "/venv/bin/python"
+    if os.path.exists(alt) and os.path.realpath(alt) != os.path.realpath(sys.executable):
+        env = dict(os.environ, MDPAXLINT_REEXEC="1")
+        os.execve(alt, [alt, "-m", "mdpaxlint.cli"] + full_argv[1:], env)
 
 
 if __name__ == "__main__":
